@@ -36,10 +36,11 @@ fn clean_at(text: &str, sp: &Sp, step: u8) -> Result<String, String> {
         .map_err(|p| format!("clean panicked: {} @ {}", trunc(&p.msg, 60), api::short_loc(&p.loc)))
 }
 
-fn judge_history(ctx: &mut Ctx, rd: &Rendered, sp: &Sp, chain: &[u8], gen_name: &str) {
+fn judge_history(ctx: &mut Ctx, rd: &Rendered, sp: &Sp, chain: &[u8], gen_name: &str, full: bool) {
     let last = *chain.last().unwrap();
     ctx.before_exec(|| json!({"kind": "hist", "doc": rd.json(), "sp": sp.json(), "chain": chain}));
     ctx.eval();
+    ctx.count(&format!("gen:{gen_name}"));
     let rp = || json!({"kind": "hist", "doc": rd.json(), "sp": sp.json(), "chain": chain});
     let mut log: Vec<Value> = vec![];
     let mut x = rd.text.clone();
@@ -94,7 +95,7 @@ fn judge_history(ctx: &mut Ctx, rd: &Rendered, sp: &Sp, chain: &[u8], gen_name: 
     }
     // no tag of an element ready under the final configuration is stranded: the stepwise result
     // must be (input minus extents at `last`) up to whitespace
-    if let Some(ext) = extents(rd, last) {
+    if let (true, Some(ext)) = (full, extents(rd, last)) {
         let rr = minus(&rd.text, &ext);
         if nonws(&rr) != nonws(&x) {
             ctx.violation(
@@ -121,17 +122,22 @@ fn judge_history(ctx: &mut Ctx, rd: &Rendered, sp: &Sp, chain: &[u8], gen_name: 
     }
 }
 
-fn eligible(rd: &Rendered, sp: &Sp) -> Result<(), &'static str> {
+/// Ok(true): fully specified geometry (all three tests apply); Ok(false): some unwrap tag shares
+/// its line with an inline element, so the unwrap extent is unspecified and only the relational
+/// tests (idempotence, stepwise == direct) apply.
+fn eligible(rd: &Rendered, sp: &Sp) -> Result<bool, &'static str> {
     if recognition_in_dispute(&rd.text, sp) {
         return Err("tag recognition in dispute on this rendering (KF-C08)");
     }
     if !crate::judge::spans_consistent(rd, sp) {
         return Err("delimiter strings occur outside tags");
     }
-    // unwrap elements must be in specified geometry at every step
+    // unwrap elements in unspecified geometry: relational tests only
+    let mut relational_only = false;
     for e in rd.elems.iter().filter(|e| e.unwrap && e.registered() && !e.skip && e.level <= 4) {
         if unwrap_geom(&rd.text, e) == UnwrapGeom::NonCanonical {
-            return Err("unwrap element in unspecified geometry");
+            relational_only = true;
+            continue;
         }
         // wrapper lines must be code: a blank wrapper line can be eaten by the blank-line
         // tidying of an earlier run, after which "the line after the opening tag" is another line
@@ -143,7 +149,7 @@ fn eligible(rd: &Rendered, sp: &Sp) -> Result<(), &'static str> {
             }
         }
     }
-    Ok(())
+    Ok(!relational_only)
 }
 
 pub fn run(ctx: &mut Ctx) {
@@ -170,23 +176,30 @@ pub fn run(ctx: &mut Ctx) {
         gc.allow_inline = i % 4 == 0;
         gc.max_depth = 4;
         gc.holds_of_10 = 5;
+        gc.tagline_tags = i % 5 == 4;
         let mut d = gen_block_doc(&mut r, &gc);
         spread_levels(&mut d, &mut r);
-        let rd = render(&d, &sp);
-        if let Err(why) = eligible(&rd, &sp) {
-            ctx.skip(why);
-            continue;
-        }
+        // multi-line tags, but not together with inline elements on unwrap tag lines (a multi-line
+        // inline tag there would spill onto the wrapper line)
+        let rd = render_with(&d, &sp, i % 4 == 1 && !gc.tagline_tags);
+        let full = match eligible(&rd, &sp) {
+            Ok(f) => f,
+            Err(why) => {
+                ctx.skip(why);
+                continue;
+            }
+        };
+        let gname = if full { "ast" } else { "ast-tagline-inline(relational only)" };
         if quick {
             // a third of the chains per document in the quick tier, rotating
             for (k, c) in all.iter().enumerate() {
                 if (k as u64 + i) % 3 == 0 {
-                    judge_history(ctx, &rd, &sp, c, "ast");
+                    judge_history(ctx, &rd, &sp, c, gname, full);
                 }
             }
         } else {
             for c in &all {
-                judge_history(ctx, &rd, &sp, c, "ast");
+                judge_history(ctx, &rd, &sp, c, gname, full);
             }
         }
     }
@@ -202,12 +215,15 @@ pub fn run(ctx: &mut Ctx) {
         spread_levels(&mut d, &mut r);
         let sp = default_sp();
         let rd = render(&d, &sp);
-        if let Err(why) = eligible(&rd, &sp) {
-            ctx.skip(why);
-            continue;
-        }
+        let full = match eligible(&rd, &sp) {
+            Ok(f) => f,
+            Err(why) => {
+                ctx.skip(why);
+                continue;
+            }
+        };
         for c in [vec![1u8, 2], vec![1, 2, 3, 4], vec![2, 4], vec![1, 4], vec![3, 3]] {
-            judge_history(ctx, &rd, &sp, &c, "unwrap-layouts");
+            judge_history(ctx, &rd, &sp, &c, "unwrap-layouts", full);
         }
     }
     ctx.note("rule", json!("distinct (source, chain of configuration steps) in which at least one step removed something; idempotence byte-for-byte, stepwise vs direct up to whitespace, nothing stranded"));
@@ -231,6 +247,7 @@ pub fn replay(ctx: &mut Ctx, v: &Value) -> Result<(), String> {
     if chain.is_empty() {
         return Err("empty chain".into());
     }
-    judge_history(ctx, &rd, &sp, &chain, "replay");
+    let full = eligible(&rd, &sp).unwrap_or(false);
+    judge_history(ctx, &rd, &sp, &chain, "replay", full);
     Ok(())
 }
